@@ -83,6 +83,10 @@ def multi_field_patterns() -> list[tuple]:
         T(["VMixed"], ("items", ("seq", [(T("*"), "a"), (("var", "a"), "b")], ("*", "t")), None)),
         T(["VMixed"], ("first", None, "a"), ("items", ("seq", [(("var", "a"), None)], ("*", None)), None)),
         T(["VMixed"], ("v", None, "n"), ("first", ("val", T(["VLeaf"], ("v", V("n"), None))), None)),
+        T(["VMixed"], ("one", None, "a"), ("first", V("a"), None)),
+        T(["VMixed"], ("one", None, "a"), ("one", V("a"), "b")),
+        T(["VMixed"], ("one", ("val", ("none",)), "a"), ("one", V("a"), None)),
+        T(["VMixed"], ("one", None, "a"), ("items", ("seq", [(("var", "a"), None)], ("*", None)), None)),
         T(["VMixed"], ("first", None, None), ("one", None, "o")),
         T(["VMixed"], ("first", None, "f"), ("one", None, None)),
         T(["VMixed"], ("first", None, "f"), ("one", None, "o"), ("items", None, "i")),
